@@ -52,6 +52,8 @@ var props = map[string]propSpec{
 		requiredProbes: []string{"event-arrived-before-its-coverage", "event-waited-at-the-gate", "wake-up-judged", "threshold-gauge-judged", "close-with-rollback-mitigation"}},
 	"C19": {level: "fault_enumeration", quickRuns: 4000, thoroughRuns: 100000, runLimit: 20 * time.Second,
 		requiredProbes: []string{"five-consecutive-failures", "stop:during-ping", "stop:during-retry-wait", "stop:between-rounds", "repeated-stop", "repeated-start"}},
+	"C14": {level: "exploration", quickRuns: 2500, thoroughRuns: 60000, runLimit: 30 * time.Second,
+		requiredProbes: []string{"own-checkpoint-write-fed-back", "transaction-record-emitted", "reserved-prefix-event-absorbed", "checkpoint-write-judged", "absorbed-event-advanced-position", "dotted-group-name", "group-name-with-colon", "rewrite-justified-by:ack"}},
 	"C20": {level: "fault_enumeration", quickRuns: 3000, thoroughRuns: 60000, runLimit: 30 * time.Second,
 		requiredProbes: []string{"behaviour:prompt", "behaviour:error", "behaviour:before-deadline", "behaviour:after-deadline", "behaviour:never", "behaviour:drop",
 			"wrapper:CreateDocument", "wrapper:UpdateDocument", "wrapper:DeleteDocument", "wrapper:UpsertXattrs", "wrapper:GetXattrs", "wrapper:Get", "wrapper:CreatePath", "wrapper:Ping", "wrapper:GetFailOverLogs", "wrapper:OpenStream", "wrapper:CloseStream", "wrapper:GetVBucketSeqNos", "wrapper:GetCollectionIDs", "wrapper:MetaSave", "wrapper:MetaLoad", "wrapper:MetaClear"}},
